@@ -31,7 +31,7 @@ func init() {
 		Technique:        "reference-model monitor (independent field-wise decision of acceptance) + fault-injecting io.Reader/io.Writer owned by the harness",
 		MinEvals:         map[string]int64{"quick": 20000, "thorough": 400000},
 		MinClasses:       map[string]int64{"quick": 150, "thorough": 200},
-		RequiredCounters: []string{"accept_expected_and_observed", "reject_expected_and_observed", "write_faults_injected", "reader_faults_injected", "trailing_data_rejected"},
+		RequiredCounters: []string{"accept_expected_and_observed", "reject_expected_and_observed", "write_faults_injected", "reader_faults_injected", "trailing_data_rejected", "nested_calls_from_io_callbacks"},
 		Assumptions:      []string{"a reader error other than io.EOF at or after the last field is a failed read, so rejection is expected", "honest proofs come from the library's own prover (their validity is C01's subject)"},
 		Plan: func(tier string) []Child {
 			return shardsVar(pick(tier, 12, 16), Child{Flavour: "plain", NCPU: 1})
@@ -132,6 +132,12 @@ func c10readers() []readerKind {
 		}, clean},
 		{"chunk-k", func(b []byte, rng *rand.Rand) (io.Reader, func() int) {
 			r := &chunkReader{data: b, chunk: 1 + rng.Intn(70), failAt: -1}
+			return r, func() int { return r.pos }
+		}, clean},
+		{"nested-decoder", func(b []byte, rng *rand.Rand) (io.Reader, func() int) {
+			// the reader is itself a user of the library: between two chunks of this stream it reads and writes another,
+			// valid proof (two calls overlap on one goroutine)
+			r := &nestReader{data: b, chunk: 1 + rng.Intn(600), at: 1 + rng.Intn(3), fn: func() { c10nested(rng) }}
 			return r, func() int { return r.pos }
 		}, clean},
 		{"stutter(0,nil)", func(b []byte, rng *rand.Rand) (io.Reader, func() int) {
@@ -277,8 +283,37 @@ func c10mutations(rng *rand.Rand, base []byte, pool *Pool) []c10str {
 	return out
 }
 
+// c10nested reads another valid proof, writes it back and compares; used from inside reader / writer callbacks.
+var (
+	c10ctx   *mon.Ctx
+	c10other []byte
+)
+
+func c10nested(rng *rand.Rand) {
+	c := c10ctx
+	if c == nil || c10other == nil {
+		return
+	}
+	var o multiproof.MultiProof
+	if err := o.Read(&nestReader{data: c10other, chunk: 1 + rng.Intn(600), at: -1}); err != nil {
+		c.Fail("rejected-valid/MultiProof.Read/nested", "MultiProof.Read rejects a valid proof when called from inside another stream's reader/writer: "+err.Error(), nil)
+		return
+	}
+	w := &nestWriter{at: -1}
+	if err := o.Write(w); err != nil || !bytes.Equal(w.buf, c10other) {
+		c.Fail("roundtrip-differs/MultiProof/nested", fmt.Sprintf("a proof read and written from inside another stream's reader/writer does not reproduce its bytes (err=%v)", err), nil)
+	}
+	var ip ipa.IPAProof
+	if err := ip.Read(bytes.NewReader(c10other[32:])); err != nil {
+		c.Fail("rejected-valid/IPAProof.Read/nested", "IPAProof.Read rejects a valid proof when called from inside another stream's reader/writer: "+err.Error(), nil)
+	}
+	c.Count("nested_calls_from_io_callbacks", 1)
+}
+
 func runC10(c *mon.Ctx) {
 	pool := NewPool(c.Rand("pool"), 40)
+	c10ctx = c
+	c10other = c10valid(c.Rand("other"), pool)
 	or := &c10oracle{cache: map[string]bool{}}
 	readers := c10readers()
 	nb := c.Pick(96, 8000)
@@ -568,6 +603,18 @@ func c10write(c *mon.Ctx, valid []byte, rng *rand.Rand) {
 			}
 			c.Eval(fmt.Sprintf("MultiProof.Write|fail-at-call|%d|short=%v", at, short), true)
 		}
+	}
+	// a writer that is itself a user of the library: before accepting one of the chunks it reads and writes another proof
+	for _, at := range []int{0, rng.Intn(n)} {
+		w := &nestWriter{at: at, fn: func() { c10nested(rng) }}
+		if err := mp.Write(w); err != nil || !bytes.Equal(w.buf, valid) {
+			c.Fail("write-differs/MultiProof.Write/nested", fmt.Sprintf("MultiProof.Write does not emit the proof's bytes (err=%v) when the writer serialises another proof from inside its Write method (call %d)", err, at), nil)
+		}
+		w2 := &nestWriter{at: at % 17, fn: func() { c10nested(rng) }}
+		if err := mp.IPA.Write(w2); err != nil || !bytes.Equal(w2.buf, valid[32:]) {
+			c.Fail("write-differs/IPAProof.Write/nested", fmt.Sprintf("IPAProof.Write does not emit the proof's bytes (err=%v) when the writer serialises another proof from inside its Write method", err), nil)
+		}
+		c.Eval("MultiProof.Write|nested-writer", true)
 	}
 	// IPAProof.Write
 	probe2 := &failWriter{failAt: -1}
